@@ -175,7 +175,10 @@ func vfTxs(r *rand.Rand) []string {
 	hx := func(n int) string { return "0x" + common.Bytes2Hex([]byte(rb(n))) }
 	return []string{"", "0xkartik", "a", hx(32), strings.ToUpper(hx(32)), hx(32) + "," + hx(32), hx(32) + "," + hx(32) + "," + hx(32),
 		"ünï-çødé ✓ 交易", "\xff\xfe\x00\x80", rb(135), rb(136), rb(137), rb(271), rb(272), rb(273), strings.Repeat("ab", 1000),
-		",", ",,", "0x" + strings.Repeat("0", 64)}
+		",", ",,", "0x" + strings.Repeat("0", 64),
+		// white space (ASCII and Unicode White_Space) at the ends and inside: all of it is hashed
+		" " + hx(32), hx(32) + " ", "\t" + hx(32) + "\n", "\r\n" + hx(4) + "\r\n", hx(32) + "\u00a0", "\u2003" + hx(32),
+		"\u0085" + hx(8) + "\u3000", hx(16) + " " + hx(16), " ", "\u00a0"}
 }
 
 func vfRandAmount(r *rand.Rand) string {
@@ -522,7 +525,7 @@ func TestVerifC03(t *testing.T) {
 		}
 		for i := range pool {
 			others := append(append([]vfBid{}, pool[:i]...), pool[i+1:]...)
-			run("concurrent", c03In{Kind: 2 - (i%4)/3, Bid: pool[i], Conc: &c03Conc{Pool: others, Millis: millis}})
+			run("concurrent", c03In{Kind: 1 + i%2, Bid: pool[i], Conc: &c03Conc{Pool: others, Millis: millis}})
 		}
 	}
 	for _, b := range []vfBid{{Tx: nil, Amt: []byte("1"), Bn: 1}, {Tx: []byte("t"), Amt: nil, Bn: 1}, {Tx: []byte("t"), Amt: []byte("1"), Bn: 0},
